@@ -854,6 +854,7 @@ class Translator:
         for lab, ins in blocks:
             for ln in ins:
                 toks[id(ln)] = tokenize(ln)
+        blocks = s.rpo(blocks, toks)
         decls = []
         code = []
         s.retzero = s.zero(f.ftype.ret)
@@ -892,6 +893,34 @@ class Translator:
                 except Exception as e:
                     raise RuntimeError('in %s: %s\n  %s: %s' % (f.name, ln, type(e).__name__, e))
         return hdr + ' {\n  ' + '\n  '.join(decls) + '\n  ' + '\n  '.join(code) + '\n}\n'
+
+    def rpo(s, blocks, toks):
+        """emit blocks in reverse post-order: every textually backward goto is then a natural-loop back edge to its header
+        (CBMC identifies and counts loops by backward gotos; LLVM's own layout places 'backedge' trampoline blocks before their sources)"""
+        succ = {}
+        for lab, ins in blocks:
+            out = []
+            if ins:
+                tk = toks[id(ins[-1])]
+                for i, (k, v) in enumerate(tk):
+                    if v == 'label' and i + 1 < len(tk): out.append(tk[i + 1][1][1:].strip('"'))
+            succ[lab] = out
+        order = []; seen = set()
+        entry = blocks[0][0]
+        stack = [(entry, iter(succ[entry]))]; seen.add(entry)
+        while stack:
+            lab, it = stack[-1]
+            adv = False
+            for nx in it:
+                if nx not in seen and nx in succ:
+                    seen.add(nx); stack.append((nx, iter(succ[nx]))); adv = True; break
+            if not adv:
+                order.append(lab); stack.pop()
+        order.reverse()
+        bymap = dict((lab, ins) for lab, ins in blocks)
+        res = [[lab, bymap[lab]] for lab in order]
+        res += [[lab, ins] for lab, ins in blocks if lab not in seen]   # unreachable blocks keep their place at the end
+        return res
 
     def zero(s, t):
         rt = s.em.resolve(t)
